@@ -915,9 +915,179 @@ fn part_api(c: &Child, only_chunk: Option<&str>) -> Tally {
     tl
 }
 
+/// part "products": two inputs that the other parts vary one at a time, varied together.
+///  (a) leap tables by length (1 .. 1000: a table longer than any real one may take another code path) x sign pattern of the
+///      corrections x position of the last record relative to i64::MAX (at the limit, within |correction| of it, far from it)
+///      x transition layout; lookups, projections and searches at the extremes and around every transition and several records;
+///  (b) TimeZoneSettings with d configured directories x a relative name of l bytes: the peak allocation of one lookup must stay
+///      within a small multiple of the input (directories + name), not grow with their product.
+fn part_products(c: &Child, only_chunk: Option<&str>) -> Tally {
+    let lt = |o: i32, d: bool| LocalTimeType::new(o, d, Some(b"ABC")).unwrap();
+    let lens: [usize; 16] = [1, 2, 3, 15, 16, 17, 31, 32, 33, 34, 63, 64, 65, 129, 257, 1000];
+    let spacing: i64 = 28 * 86400;
+    let mut specs: Vec<(usize, u8, u8, u8)> = vec![];
+    for &n in &lens {
+        for sign in 0..3u8 {
+            for last in 0..7u8 {
+                for layout in 0..3u8 {
+                    specs.push((n, sign, last, layout));
+                }
+            }
+        }
+    }
+    let t = (0..specs.len())
+        .into_par_iter()
+        .map(|k| {
+            let id = format!("products:leap{k}");
+            if only_chunk.map_or(false, |o| o != id) {
+                return Tally::default();
+            }
+            c.enter(&id);
+            let (n, sign, last, layout) = specs[k];
+            let mut tl = Tally::default();
+            // corrections: all -1 steps / all +1 steps / down then up
+            let corr = |i: usize| -> i32 {
+                match sign {
+                    0 => -(i as i32 + 1),
+                    1 => i as i32 + 1,
+                    _ => {
+                        let h = (n / 2) as i32;
+                        let i = i as i32;
+                        if i < h { -(i + 1) } else { -h + (i - h) + 1 - if h == 0 { 0 } else { 1 } * 0 }
+                    }
+                }
+            };
+            let mut leaps: Vec<LeapSecond> = (0..n).map(|i| LeapSecond::new(i as i64 * spacing, corr(i))).collect();
+            // one more record at / near the end of the i64 range
+            let cn = corr(n - 1);
+            let step = if sign == 1 { 1 } else { -1 };
+            let m = n as i64 + 1;
+            let last_time = match last {
+                0 => None,
+                1 => Some(i64::MAX),
+                2 => Some(i64::MAX - 1),
+                3 => Some(i64::MAX - m),
+                4 => Some(i64::MAX - m + 1),
+                5 => Some(i64::MAX - m - 1),
+                _ => Some(i64::MAX - spacing),
+            };
+            if let Some(lt_) = last_time {
+                leaps.push(LeapSecond::new(lt_, cn + step));
+            }
+            let types = vec![lt(0, false), lt(3600, true)];
+            let end = n as i64 * spacing;
+            let trans: Vec<Transition> = match layout {
+                0 => vec![Transition::new(0, 1), Transition::new(4_000_000_000i64.max(end + 1000), 0)],
+                1 => vec![Transition::new(-1000, 1), Transition::new(end / 2 + 7, 0), Transition::new(end + spacing / 2, 1), Transition::new(i64::MAX - 2 * m, 0)],
+                _ => (0..n.min(40)).map(|i| Transition::new(i as i64 * spacing + (i as i64 % 3 - 1), (i + 1) % 2)).collect(),
+            };
+            let case = || json!({"kind":"products_leap","index":k,"records":n,"sign_pattern":sign,"last_record":last,"layout":layout});
+            let rules: [Option<TransitionRule>; 2] = [None, Some(TransitionRule::Fixed(types[trans.last().map_or(0, |t| t.local_time_type_index())]))];
+            for rule in rules {
+                let z = match guard(|| TimeZone::new(trans.clone(), types.clone(), leaps.clone(), rule)) {
+                    Err(msg) => {
+                        c.rec.violation("products", case(), json!("no panic in the constructor"), json!(msg));
+                        continue;
+                    }
+                    Ok(Err(_)) => continue,
+                    Ok(Ok(z)) => z,
+                };
+                tl.accepted += 1;
+                let r = guard(|| {
+                    let zr = z.as_ref();
+                    let mut ts: Vec<i64> = vec![i64::MIN, i64::MIN + 1, -1, 0, 1, 951868800, 3_999_999_999, i64::MAX - 1, i64::MAX, crate::cal::MIN_UNIX_TIME, crate::cal::MAX_UNIX_TIME];
+                    for tr in zr.transitions() {
+                        for d in [-m - 1, -m, -1, 0, 1, m, m + 1] {
+                            ts.push(tr.unix_leap_time().saturating_add(d));
+                        }
+                    }
+                    let nl = zr.leap_seconds().len();
+                    for (i, l) in zr.leap_seconds().iter().enumerate() {
+                        if i < 3 || i + 3 >= nl || i == nl / 2 || i == 32 || i == 33 {
+                            for d in [-m - 1, -m, -1, 0, 1, m] {
+                                ts.push(l.unix_leap_time().saturating_add(d));
+                            }
+                        }
+                    }
+                    let mut buf = [None; 4];
+                    let mut used = 0u64;
+                    for &t in &ts {
+                        used += 1;
+                        let _ = zr.find_local_time_type(t);
+                        if let Ok(d) = DateTime::from_timespec(t, 1, zr) {
+                            let _ = format_len(&d);
+                            let _ = DateTime::find_n(&mut buf, d.year(), d.month(), d.month_day(), d.hour(), d.minute(), d.second(), 0, zr);
+                            let _ = DateTime::find(d.year(), d.month(), d.month_day(), d.hour(), d.minute(), d.second(), 0, zr).map(|l| l.into_inner().len());
+                            let _ = d.project(TimeZoneRef::utc());
+                        }
+                        if let Ok(u) = UtcDateTime::from_timespec(t, 0) {
+                            let _ = u.project(zr);
+                        }
+                    }
+                    used
+                });
+                match r {
+                    Ok(u) => {
+                        tl.used += u;
+                        tl.evals += u;
+                    }
+                    Err(msg) => c.rec.violation("products", case(), json!("no panic"), json!(msg)),
+                }
+            }
+            c.leave(&id);
+            tl
+        })
+        .reduce(Tally::default, Tally::merge);
+    let mut tl = t;
+    // (b) directories x name length
+    let id = "products:lookup".to_string();
+    if only_chunk.map_or(true, |o| o == id) {
+        c.enter(&id);
+        for &nd in &[0usize, 1, 3, 30, 300, 1000, 3000] {
+            let dirs_owned: Vec<String> = (0..nd).map(|i| format!("/zoneinfo-{i:05}")).collect();
+            let dirs: Vec<&str> = dirs_owned.iter().map(|s| s.as_str()).collect();
+            let last_dir = dirs_owned.last().cloned().unwrap_or_default();
+            for &nl in &[1usize, 30, 1000, 30_000, 65_536] {
+                for variant in 0..3 {
+                    let mut name = String::from("Area/");
+                    while name.len() < nl {
+                        name.push_str("Abcdefgh/");
+                    }
+                    name.truncate(nl.max(1));
+                    let value = if variant == 2 { format!(":{name}") } else { name.clone() };
+                    let want_path = format!("{last_dir}/{name}");
+                    let input = dirs_owned.iter().map(|d| d.len()).sum::<usize>() + value.len();
+                    tl.evals += 1;
+                    let settings = if variant == 1 {
+                        // found (a malformed file) in the last directory only
+                        TimeZoneSettings::new(&dirs, |p| if p.len() == 5 { Ok(vec![]) } else { Err("nothing here".into()) })
+                    } else {
+                        TimeZoneSettings::new(&dirs, fail_reader)
+                    };
+                    let _ = &want_path;
+                    let (r, peak) = measured(|| guard(|| settings.parse_posix_tz(&value).is_ok()));
+                    let bound = 8 * input + 4096;
+                    tl.max_alloc_ratio_x100 = tl.max_alloc_ratio_x100.max((peak as u64 * 100) / (input as u64 + 1));
+                    let case = || json!({"kind":"products_lookup","directories":nd,"name_len":nl,"variant":variant});
+                    match r {
+                        Err(m) => c.rec.violation("products", case(), json!("no panic"), json!(m)),
+                        Ok(_) => {
+                            if peak > bound {
+                                c.rec.violation("products", case(), json!({"peak_alloc_at_most": bound, "input_bytes": input}), json!({"peak_alloc": peak}));
+                            }
+                        }
+                    }
+                }
+            }
+        }
+        c.leave(&id);
+    }
+    tl
+}
+
 // ------------------------------------------------------------------------------------------ child / parent
 
-const PARTS: [&str; 9] = ["strings", "edits", "mutate", "headers", "pools", "lengths", "sizes", "rules", "api"];
+const PARTS: [&str; 10] = ["strings", "edits", "mutate", "headers", "pools", "lengths", "sizes", "rules", "api", "products"];
 /// parts run by the unoptimised build (debug profile: no inlining or tail-call elimination, every frame is real)
 const UNOPT_PARTS: [&str; 2] = ["sizes", "lengths"];
 
@@ -932,6 +1102,7 @@ fn run_part(c: &Child, part: &str, thorough: bool, only_chunk: Option<&str>) -> 
         "sizes" => part_sizes(c, only_chunk),
         "rules" => part_rules(c, only_chunk),
         "api" => part_api(c, only_chunk),
+        "products" => part_products(c, only_chunk),
         _ => Tally::default(),
     }
 }
@@ -1110,6 +1281,15 @@ pub fn replay(case: &Value, args: &Args) -> i32 {
                     tl.accepted = 15;
                     try_string(&c, &s, "replay", &mut tl);
                 }
+            }
+            verdict(&c.rec)
+        }
+        "products_leap" | "products_lookup" => {
+            COUNTING.store(true, Ordering::Relaxed);
+            let c = Child { rec: Recorder::new(args, "exploration"), progress: None, inflight: Mutex::new(BTreeSet::new()), single: false };
+            let chunk = if case["kind"] == "products_leap" { format!("products:leap{}", case["index"].as_u64().unwrap_or(0)) } else { "products:lookup".to_string() };
+            for _ in 0..2 {
+                part_products(&c, Some(&chunk));
             }
             verdict(&c.rec)
         }
